@@ -18,7 +18,7 @@ import (
 
 // TokSpec is one token of a C10 sequence with its trimming.
 type TokSpec struct {
-	Kind    int    `json:"kind"` // 0 Rune '(' 1 Op "==" 2 Word "let" 3 Integer 4 String 5 Many1(b) 6 Any(a,ab) 7 Choice(',',Empty) 8 Empty 9 Choice(LeftTrim('(',Left),'[') 10 Choice(';',End()) 11 LeftTrim(Optional('!')) 12 Optional(LeftTrim('!',Left))
+	Kind    int    `json:"kind"` // 0 Rune '(' 1 Op "==" 2 Word "let" 3 Integer 4 String 5 Many1(b) 6 Any(a,ab) 7 Choice(',',Empty) 8 Empty 9 Choice(LeftTrim('(',Left),'[') 10 Choice(';',End()) 11 LeftTrim(Optional('!')) 12 Optional(LeftTrim('!',Left)) 13 Many(b)
 	Text    string `json:"text"`
 	Left    int    `json:"left"`              // -1: no LeftTrim, else the mode
 	Right   int    `json:"right"`             // -1: no RightTrim, else the mode
@@ -121,6 +121,12 @@ func matchTok(d []byte, i int, ts TokSpec) (int, bool) {
 			e++
 		}
 		return e, e > i
+	case 13: // zero or more b's: a list node (with a start and an end of its own) also when it is empty
+		e := i
+		for e < len(d) && d[e] == 'b' {
+			e++
+		}
+		return e, true
 	case 12:
 		return i, true
 	case 11: // an optional '!' (the whitespace in front of it is the model's business)
@@ -256,6 +262,8 @@ func tokParser(ts TokSpec) parsley.Parser {
 		p = terminal.Integer("i")
 	case 5:
 		p = combinator.Many1(terminal.Op("b"))
+	case 13:
+		p = combinator.Many(terminal.Op("b"))
 	case 6:
 		p = combinator.Any(terminal.Op("a"), terminal.Op("ab"))
 	case 12: // an optional, left-trimmed '!': the whitespace belongs to the '!' and stays when it is absent
@@ -359,6 +367,15 @@ func modelC10(d []byte, toks []TokSpec) (m c10Model) {
 				m.mismatch = true
 				return m
 			} else if !ok {
+				if end, _ := matchTok(d, e, ts); ts.Inner && end == e && right >= 0 {
+					if _, rok, _, _ := judgeRun(d, e, right); !rok {
+						// LeftTrim(RightTrim(token)) around a token that matched nothing, both runs
+						// violating their modes (the right one is empty and a line break is demanded):
+						// two modes are violated and the statement does not say which one is named
+						m.mismatch = true
+						return m
+					}
+				}
 				m.wantErr, m.wantOff = wsErrText[left], eo
 				return m
 			}
@@ -370,7 +387,7 @@ func modelC10(d []byte, toks []TokSpec) (m c10Model) {
 			return m
 		}
 		sp := [2]int{cur, end}
-		m.empty = append(m.empty, cur == end)
+		m.empty = append(m.empty, cur == end && ts.Kind != 13)
 		cur = end
 		if right >= 0 {
 			e, ok, eo, len := judgeRun(d, cur, right)
@@ -438,11 +455,11 @@ func checkC10(ci interface{}, st *Stats) error {
 	for _, g := range c.Gaps {
 		// whitespace, or one of the bytes that look like whitespace and are none (vertical tab, NUL,
 		// a lone carriage return, NEL, NBSP, line separator): the model then expects a mismatch
-		if strings.Trim(g, " \t\n\f\r\v\x00\u0085\u00a0\u2028") != "" {
+		if strings.Trim(g, " \t\n\f\r\v\x00\u0085\u00a0\u2028`IJL@\u0249\u028a\u030c\u0800") != "" {
 			return Discard{"gap is not a whitespace-like string"}
 		}
 		if strings.Trim(g, " \t\n\f\r") != "" || strings.Contains(strings.ReplaceAll(g, "\r\n", ""), "\r") {
-			st.Class("gap with a byte that only looks like whitespace (VT, NUL, lone CR, NEL, NBSP, LS)")
+			st.Class("gap with a byte that only looks like whitespace (VT, NUL, lone CR, NEL, NBSP, LS, a whitespace byte with other high bits)")
 		}
 	}
 	src := c.source()
@@ -572,7 +589,7 @@ func checkC10(ci interface{}, st *Stats) error {
 	}
 	// inside a composite token nothing moves: only the right-trimmed node's own end goes past the run
 	for i, ch := range seq {
-		if nt, ok := ch.(parsley.NonTerminalNode); ok && c.Toks[i].Kind == 5 {
+		if nt, ok := ch.(parsley.NonTerminalNode); ok && (c.Toks[i].Kind == 5 || c.Toks[i].Kind == 13) {
 			at := m.spans[i][0]
 			for k, b := range nt.Children() {
 				if int(b.Pos())-base != at+k || int(b.ReaderPos())-base != at+k+1 {
@@ -594,7 +611,7 @@ func checkC10(ci interface{}, st *Stats) error {
 		keep := false
 		if i > 0 && i < len(c.Toks) {
 			a, b := c.Toks[i-1], c.Toks[i]
-			if (a.Kind == 2 || a.Kind == 3) && (b.Kind == 2 || b.Kind == 3) || a.Kind == 5 && b.Kind == 5 {
+			if (a.Kind == 2 || a.Kind == 3) && (b.Kind == 2 || b.Kind == 3) || (a.Kind == 5 || a.Kind == 13) && (b.Kind == 5 || b.Kind == 13) {
 				keep = true // word/number neighbours (and two b-runs) would merge
 			}
 			if a.Right == 3 || b.Left == 3 {
@@ -640,7 +657,7 @@ func genC10(t *rapid.T) interface{} {
 	mode := func(label string) int { return rapid.SampledFrom([]int{0, 1, 1, 2, 2, 2, 3}).Draw(t, label) }
 	for i := 0; i < n; i++ {
 		ts := TokSpec{Left: -1, Right: -1}
-		ts.Kind = rapid.SampledFrom([]int{0, 1, 2, 3, 4, 0, 1, 2, 3, 4, 5, 5, 6, 7, 7, 8, 9, 9, 11, 11, 12, 12}).Draw(t, "kind")
+		ts.Kind = rapid.SampledFrom([]int{0, 1, 2, 3, 4, 0, 1, 2, 3, 4, 5, 5, 6, 7, 7, 8, 9, 9, 11, 11, 12, 12, 13, 13}).Draw(t, "kind")
 		switch ts.Kind {
 		case 0:
 			ts.Text = "("
@@ -654,6 +671,8 @@ func genC10(t *rapid.T) interface{} {
 			ts.Text = rapid.SampledFrom([]string{`"s"`, `""`, `"a b"`, `"\n"`, `"\t\t"`, `"é"`, `"\u0041b"`, `"x\\y"`}).Draw(t, "str")
 		case 5:
 			ts.Text = rapid.SampledFrom([]string{"b", "bb", "bbb"}).Draw(t, "bs")
+		case 13:
+			ts.Text = rapid.SampledFrom([]string{"", "", "b", "bb"}).Draw(t, "bs0")
 		case 6:
 			ts.Text = rapid.SampledFrom([]string{"a", "ab", "ab"}).Draw(t, "amb")
 		case 12:
@@ -731,12 +750,14 @@ func genC10(t *rapid.T) interface{} {
 		}
 		if g == "" && i > 0 && i < n {
 			a, b := c.Toks[i-1], c.Toks[i]
-			if (a.Kind == 2 || a.Kind == 3) && (b.Kind == 2 || b.Kind == 3) || a.Kind == 5 && b.Kind == 5 {
+			if (a.Kind == 2 || a.Kind == 3) && (b.Kind == 2 || b.Kind == 3) || (a.Kind == 5 || a.Kind == 13) && (b.Kind == 5 || b.Kind == 13) {
 				g = " " // neighbours that would merge into one token
 			}
 		}
 		if rapid.IntRange(0, 24).Draw(t, "lookalike") == 7 {
-			junk := rapid.SampledFrom([]string{"\v", "\v", "\x00", "\r", "\u0085", "\u00a0", "\u2028"}).Draw(t, "lookalikeByte")
+			junk := rapid.SampledFrom([]string{"\v", "\v", "\x00", "\r", "\u0085", "\u00a0", "\u2028",
+				// a whitespace byte plus 64, 128 or 192 (a table or bit set indexed by six bits of the byte)
+				"`", "I", "J", "L", "@", "\u0249", "\u028a", "\u030c", "\u0800"}).Draw(t, "lookalikeByte")
 			k := rapid.IntRange(0, len(g)).Draw(t, "lookalikeAt")
 			g = g[:k] + junk + g[k:]
 		}
